@@ -28,7 +28,7 @@ class C05(Engine):
     name = "read-fault-sim"
     level = "fault_enumeration"
     expected_kinds = {"prefix_tok", "prefix_chr", "tok_del", "tok_rep", "tok_ins", "tok_swap", "edit_pair", "flip",
-                      "non_ascii", "bad_utf8", "lex_exhaustive", "lex_seeded", "lex_long_run", "pipeline_long_run", "pipeline_deep_nest", "cli_level", "prefix_line", "tok_rep_kw", "tok_rep_macro", "line_tail_lost"}
+                      "non_ascii", "bad_utf8", "lex_exhaustive", "lex_seeded", "lex_long_run", "pipeline_long_run", "pipeline_deep_nest", "cli_level", "prefix_line", "tok_rep_kw", "tok_rep_macro", "line_tail_lost", "undamaged"}
     rule_text = ("Every workload program (repository samples, generated conforming/violating files, literal families) x both file "
                  "types x every token boundary (prefix_tok) and every single-token deletion (tok_del) is executed, plus the middle of "
                  "every multi-character token (prefix_chr), seeded token replace/insert/swap/pairs, byte flips, non-ASCII and invalid "
@@ -58,10 +58,10 @@ class C05(Engine):
         P = self.pools
         q = self.tier == "quick"
         out = []
-        for g in ("corpus", "gen", "viol", "special_literal", "special_clean", "special_notice"):
+        for g in ("corpus", "gen", "viol", "special_literal", "special_clean", "special_notice", "special_zoo", "special_odd"):
             ids = P.groups.get(g, [])
-            if g == "special_literal" and q:
-                r = core.derive_rng("c05.lit", self.seed, 0)
+            if g in ("special_literal", "special_odd") and q:
+                r = core.derive_rng("c05." + g, self.seed, 0)
                 ids = sorted(r.sample(ids, 8))
             out += ids
         return out
@@ -144,7 +144,7 @@ class C05(Engine):
                         if spans[k3][2] == "IDENTIFIER":
                             macros.append(content[spans[k3][0]:spans[k3][1]])
                             break
-            macros = sorted(set(macros))[:2]
+            macros = list(dict.fromkeys(macros))[:2]        # the first two macros, in definition order
             if macros:
                 for k2 in sorted(line_has_hash):
                     if spans[k2][2] in ("SPACE", "TAB", "NEWLINE", "HASH"):
@@ -205,6 +205,17 @@ class C05(Engine):
                 yield idx, self.derived(b, nm, sp, f"{kind}@{k}", kind, extra)
                 idx += 1
         self.n_bases = n_bases
+        # every special member undamaged under both file types (the full fault enumeration only covers a seeded subset of them)
+        idx = 4_000_000
+        for g in sorted(P.groups):
+            if not g.startswith("special_"):
+                continue
+            for b in P.groups[g]:
+                f = P.files[b]
+                stem, ext = f["name"].rsplit(".", 1)
+                for nm in (f["name"], f"{stem}.{'h' if ext == 'c' else 'c'}"):
+                    yield idx, self.derived(b, nm, [], "undamaged", "undamaged")
+                    idx += 1
         # CLI level: the same kind of damage through the real main()
         base_ids = self.bases()
         n_cli = 300 if q else 6000
@@ -318,8 +329,8 @@ class C05(Engine):
                     vs.append(Violation(self.prop, "C05.cli-ends-with-status", "main() returned without sys.exit", {}))
                 else:
                     ex = o.get("exit")
-                    if not isinstance(ex, int):
-                        vs.append(Violation(self.prop, "C05.cli-ends-with-status", f"exit status is {type(ex).__name__}", {"exit": str(ex)[:100]}))
+                    if not isinstance(o.get("exit_raw", 0), (int, type(None))):
+                        vs.append(Violation(self.prop, "C05.cli-ends-with-status", "sys.exit called with a non-integer", {"exit": str(o.get("exit_raw"))[:100]}))
                     elif not o.get("reports") and ex == 0:
                         vs.append(Violation(self.prop, "C05.cli-ends-with-status", "no report printed but exit status 0", {"stdout": o.get("stdout", "")[:200]}))
                 continue
